@@ -65,6 +65,9 @@ struct Hg {
     /// every delay (and the explorer's time grid) is multiplied by this: 1, or 101 for the
     /// seconds-range configurations (20 ms -> 2.02 s)
     scale: u64,
+    /// the listener takes 15 ms (of time passing inside the poll, see clock::burn) when the
+    /// FIRST hedge is announced: the next hedge's delay counts from when that hedge was started
+    slow_listener: bool,
 }
 
 struct X {
@@ -89,7 +92,7 @@ impl Scenario for Hg {
         "C12"
     }
     fn label(&self) -> String {
-        format!("hedge max_hedged_attempts={} delay={:?}{}", self.max, self.delay, if self.held_readiness { " hedge-clones-not-ready-until-released" } else if self.late_ticks > 0 { " late-polls" } else if self.scale != 1 { " x101" } else { "" })
+        format!("hedge max_hedged_attempts={} delay={:?}{}", self.max, self.delay, if self.held_readiness { " hedge-clones-not-ready-until-released" } else if self.late_ticks > 0 { " late-polls" } else if self.scale != 1 { " x101" } else if self.slow_listener { " slow-listener-at-first-hedge" } else { "" })
     }
     fn callers(&self) -> usize {
         1
@@ -106,7 +109,20 @@ impl Scenario for Hg {
     fn init(&self, w: &mut World) -> X {
         let b = HedgeLayer::builder().max_hedged_attempts(self.max);
         // (the configurations with three attempts register a no-op event listener)
-        let b = if self.max == 3 { b.on_event(tower_resilience_core::events::FnListener::new(|_e: &tower_resilience_hedge::HedgeEvent| {})) } else { b };
+        let slow = self.slow_listener;
+        let b = if self.max == 3 {
+            b.on_event(tower_resilience_core::events::FnListener::new(move |e: &tower_resilience_hedge::HedgeEvent| {
+                if slow {
+                    if let tower_resilience_hedge::HedgeEvent::HedgeStarted { attempt, .. } = e {
+                        if *attempt == 1 {
+                            trv_core::clock::burn(Duration::from_millis(15));
+                        }
+                    }
+                }
+            }))
+        } else {
+            b
+        };
         let b = match self.delay {
             Delay::Fixed20 => b.delay(Duration::from_millis(20 * self.scale)),
             Delay::Immediate => b.no_delay(),
@@ -129,7 +145,7 @@ impl Scenario for Hg {
         };
         let layer = b.build();
         w.inner.lock().unwrap().hold_late_ready = self.held_readiness;
-        let svc = layer.layer(GatedInner::new(w.inner.clone()));
+        let svc = layer.clone().layer(GatedInner::new(w.inner.clone()));
         X { svc, first_success: None, completions: vec![], pre_first_success_pending: false }
     }
     fn arrive(&self, w: &mut World, x: &mut X, c: usize, _v: u8) {
@@ -362,27 +378,33 @@ fn configs(tier: Tier) -> Vec<Hg> {
             if max < 3 && matches!(delay, Delay::Dyn20_30_10) || max != 2 && matches!(delay, Delay::Frac) || max != 3 && matches!(delay, Delay::SubMs) {
                 continue;
             }
-            v.push(Hg { max, delay, max_ticks: tier.pick(6, 10), held_readiness: false, late_ticks: 0, scale: 1 });
+            v.push(Hg { max, delay, max_ticks: tier.pick(6, 10), held_readiness: false, late_ticks: 0, scale: 1, slow_listener: false });
+        }
+        if max == 3 {
+            // a slow listener at the start of the first hedge
+            for delay in [Delay::Fixed20, Delay::Dyn20_10] {
+                v.push(Hg { max, delay, max_ticks: tier.pick(6, 9), held_readiness: false, late_ticks: 0, scale: 1, slow_listener: true });
+            }
         }
         if max == 3 {
             // "one hedge, then none": the delay of the second hedge is Duration::MAX
-            v.push(Hg { max, delay: Delay::Dyn20Never, max_ticks: tier.pick(5, 8), held_readiness: false, late_ticks: 0, scale: 1 });
+            v.push(Hg { max, delay: Delay::Dyn20Never, max_ticks: tier.pick(5, 8), held_readiness: false, late_ticks: 0, scale: 1, slow_listener: false });
         }
         if max == 3 {
             // a late executor: the woken call is polled up to two ticks late
             for delay in [Delay::Fixed20, Delay::Dyn20_10] {
-                v.push(Hg { max, delay, max_ticks: tier.pick(7, 10), held_readiness: false, late_ticks: tier.pick(2, 3), scale: 1 });
+                v.push(Hg { max, delay, max_ticks: tier.pick(7, 10), held_readiness: false, late_ticks: tier.pick(2, 3), scale: 1, slow_listener: false });
             }
         }
         if max == 3 {
             // delays in the seconds range (2.02 s, 3.03 s, 1.01 s)
             for delay in [Delay::Fixed20, Delay::Dyn20_30_10] {
-                v.push(Hg { max, delay, max_ticks: tier.pick(6, 8), held_readiness: false, late_ticks: 0, scale: 101 });
+                v.push(Hg { max, delay, max_ticks: tier.pick(6, 8), held_readiness: false, late_ticks: 0, scale: 101, slow_listener: false });
             }
         }
         if max >= 2 {
             for delay in [Delay::Fixed20, Delay::Immediate] {
-                v.push(Hg { max, delay, max_ticks: tier.pick(5, 8), held_readiness: true, late_ticks: 0, scale: 1 });
+                v.push(Hg { max, delay, max_ticks: tier.pick(5, 8), held_readiness: true, late_ticks: 0, scale: 1, slow_listener: false });
             }
         }
     }
